@@ -3,7 +3,7 @@ from __future__ import annotations
 
 import numpy as np
 
-from vf import gen, probes
+from vf import gen, plumbing, probes
 
 PID = "C10"
 ANCHORS = ["pyoma2.functions.gen:SC_apply", "pyoma2.functions.gen:MAC", "pyoma2.algorithms.ssi:SSIdat.run", "pyoma2.algorithms.ssi:SSIdat_MS.run",
@@ -22,7 +22,17 @@ ASSUMPTIONS = ["not judged: any of the three quantities within 1e-9 of its toler
                "difference, exact ties for the nearest neighbour, and for pLSCF the single column ordmin-1 when ordmin >= 2 (DESIGN 3/C10)"]
 
 
+PLUMB_CLASSES = ['SSIcov', 'SSIdat', 'pLSCF', 'pLSCF_MS']
+PLUMB_FIELDS = ['Lab']
+REQUIRED_MONITORS = list(REQUIRED_MONITORS) + [f"plumbing:{s_}" for s_ in plumbing.SCENARIOS]
+REQUIRED_STATES = list(REQUIRED_STATES) + [f"plumbing scenario {s_}" for s_ in plumbing.SCENARIOS]
+
+
 def cases(tier, seed):
+    return _cases(tier, seed) + plumbing.cases(len(plumbing.SCENARIOS) * len(PLUMB_CLASSES) * (1 if tier == "quick" else 6), PLUMB_CLASSES)
+
+
+def _cases(tier, seed):
     n1, n2, n3 = (300, 150, 16) if tier == "quick" else (6000, 3000, 160)
     return ([{"cls": "tables_random", "k": k} for k in range(n1)] + [{"cls": "tables_structured", "k": k} for k in range(n2)]
             + [{"cls": "inside_runs", "k": k} for k in range(n3)])
@@ -266,6 +276,8 @@ def finish_run(ctx, name, alg, rec, plscf_ordmin):
 
 
 def run_case(ctx, case):
+    if case["cls"] == "plumbing":
+        return plumbing.run_case(ctx, case, gen.rng_of(case), PLUMB_FIELDS)
     rng = gen.rng_of(case)
     if case["cls"] == "inside_runs":
         run_inside(ctx, rng)
